@@ -954,6 +954,21 @@ def _convert_to_hill_notation(atoms):
     return tuple((atoms[el], el) for el in sorted(atoms.keys(), key=_hill_key))
 
 
+def _str_count(count):
+    """
+    Convert count to a string with six significant digits, without using
+    the exponential notation that the formula parser does not understand.
+    """
+    value = "%g"%count
+    if 'e' in value:
+        mantissa, exponent = value.split('e')
+        digits, exponent = mantissa.replace('.', ''), int(exponent)
+        if exponent > 0:
+            value = digits + '0'*(exponent + 1 - len(digits))
+        else:
+            value = '0.' + '0'*(-exponent - 1) + digits
+    return value
+
 def _str_atoms(seq):
     """
     Convert formula structure to string.
@@ -974,12 +989,12 @@ def _str_atoms(seq):
                 value = str(abs(fragment.charge)) if abs(fragment.charge) > 1 else ''
                 ret += '{'+value+sign+'}'
             if count != 1:
-                ret += "%g"%count
+                ret += _str_count(count)
         else:
             if count == 1:
                 piece = _str_atoms(fragment)
             else:
-                piece = "(%s)%g"%(_str_atoms(fragment), count)
+                piece = "(%s)%s"%(_str_atoms(fragment), _str_count(count))
             #ret = ret+" "+piece if ret else piece
             ret += piece
 
